@@ -145,3 +145,7 @@ def run(ctx):
     n = 800 if ctx.tier == "quick" else 16000
     stream.run_stream(ctx, "spectra", "harness.props.c12", "gen_cases", n, per_chunk=50,
                       canon_kw=dict(drop_zero=True))
+
+
+def replay(ctx, payload):
+    return stream.replay(ctx, payload, canon_kw=dict(drop_zero=True))
